@@ -538,6 +538,180 @@ async fn run_conc(c: &ConcCase, repeats: usize) -> CaseResult {
     result.map(|_| info)
 }
 
+// ------------------------------------------------------------------------------------------
+// Expired leftovers under contention: many ids whose record has expired but was not reaped yet;
+// then, at the same time, reaper tasks call delete_expired (any batch size) and creator tasks
+// re-create the ids. Whatever the interleaving, a sequential order of these operations leaves,
+// for every id, exactly the record of a creator whose create returned Ok: delete_expired removes
+// only expired records, create never overwrites a live record.
+// ------------------------------------------------------------------------------------------
+
+#[derive(Clone, Debug, Serialize, Deserialize)]
+pub struct LeftoverCase {
+    pub sqlite: bool,
+    pub n_ids: u16,
+    /// delete_expired batch size (None = unbounded)
+    pub batch: Option<u16>,
+    pub reapers: u8,
+    pub creators: u8,
+    /// every creator tries every id (true) or the ids are split among the creators (false)
+    pub contended: bool,
+    /// the expired records carry a large state (dropping it takes a while)
+    pub big_old_state: bool,
+}
+
+pub fn leftover_oracle(c: &LeftoverCase) -> CaseResult {
+    let r = crate::util::catch(|| mt_rt().block_on(run_leftovers(c)));
+    match r {
+        Ok(r) => r,
+        Err(p) => Err(Fail::new(format!("panic:{}", crate::util::panic_sig(&p)), format!("panicked: {p}"))),
+    }
+}
+
+async fn run_leftovers(c: &LeftoverCase) -> CaseResult {
+    let backend = if c.sqlite { "sqlite" } else { "memory" };
+    let mut info = CaseInfo::default();
+    let dir = std::path::Path::new("/verif/.work/c13db");
+    let _ = std::fs::create_dir_all(dir);
+    let db_path = dir.join(format!("c13-left-{}-{}.db", std::process::id(), DB_COUNTER.fetch_add(1, std::sync::atomic::Ordering::Relaxed)));
+    let store: Arc<dyn SessionStorageBackend> = if c.sqlite { Arc::new(crate::stores::sqlite_file(&db_path, 6).await) } else { Arc::new(InMemorySessionStore::new()) };
+    let n = c.n_ids.max(2) as usize;
+    let ids = Arc::new(fresh_ids(n));
+    // ---- leftovers: records that expire at once
+    let filler = if c.big_old_state { "x".repeat(64 * 1024) } else { "x".to_string() };
+    for id in ids.iter() {
+        let mut st = State::default();
+        st.insert("old".into(), Value::from(filler.clone()));
+        if let Err(e) = store.create(id, SessionRecordRef { state: Cow::Borrowed(&st), ttl: Duration::ZERO }).await {
+            return Err(Fail::new(format!("{backend}:create"), format!("{backend} store: creating a fresh id failed: {e:?}")));
+        }
+    }
+    // SQLite deadlines have a resolution of one second: wait until the leftovers are strictly in the past
+    tokio::time::sleep(Duration::from_millis(if c.sqlite { 1100 } else { 3 })).await;
+    // ---- reapers and creators start together
+    let n_creators = c.creators.clamp(1, 4) as usize;
+    let n_reapers = c.reapers.min(2) as usize;
+    let barrier = Arc::new(tokio::sync::Barrier::new(n_creators + n_reapers));
+    let batch = c.batch.and_then(|b| NonZeroUsize::new(b as usize));
+    let mut reaper_handles = vec![];
+    for _ in 0..n_reapers {
+        let (store, barrier) = (store.clone(), barrier.clone());
+        reaper_handles.push(tokio::spawn(async move {
+            barrier.wait().await;
+            let mut errors = vec![];
+            for _ in 0..60 {
+                match store.delete_expired(batch).await {
+                    Ok(_) => {}
+                    Err(e) => errors.push(format!("{e:?}")),
+                }
+                tokio::task::yield_now().await;
+            }
+            errors
+        }));
+    }
+    let mut creator_handles = vec![];
+    for t in 0..n_creators {
+        let (store, barrier, ids) = (store.clone(), barrier.clone(), ids.clone());
+        let contended = c.contended;
+        creator_handles.push(tokio::spawn(async move {
+            barrier.wait().await;
+            let mut oks: Vec<usize> = vec![];
+            let mut errors = vec![];
+            for k in 0..ids.len() {
+                // every creator walks the ids in its own order
+                let i = (k + t * 13) % ids.len();
+                if !contended && i % n_creators != t {
+                    continue;
+                }
+                let mut st = State::default();
+                st.insert("by".into(), Value::from(t as u64));
+                match store.create(&ids[i], SessionRecordRef { state: Cow::Borrowed(&st), ttl: Duration::from_secs(3600) }).await {
+                    Ok(()) => oks.push(i),
+                    Err(CreateError::DuplicateId(_)) => {}
+                    Err(e) => errors.push(format!("{e:?}")),
+                }
+            }
+            (oks, errors)
+        }));
+    }
+    let mut ok_by: Vec<Vec<usize>> = vec![vec![]; n];
+    for (t, h) in creator_handles.into_iter().enumerate() {
+        let (oks, errors) = h.await.map_err(|e| Fail::new("harness:join", e.to_string()))?;
+        if let Some(e) = errors.first() {
+            return Err(Fail::new(format!("{backend}:create"), format!("{backend} store: create failed with {e}")));
+        }
+        for i in oks {
+            ok_by[i].push(t);
+        }
+    }
+    for h in reaper_handles {
+        let errors = h.await.map_err(|e| Fail::new("harness:join", e.to_string()))?;
+        if let Some(e) = errors.first() {
+            return Err(Fail::new(format!("{backend}:delete_expired"), format!("{backend} store: delete_expired failed with {e}")));
+        }
+    }
+    // ---- what every sequential order implies
+    let mut result = Ok(());
+    for (i, id) in ids.iter().enumerate() {
+        if !c.contended && ok_by[i].is_empty() && n_creators > 0 {
+            // the creator responsible for this id must have succeeded: the old record had expired
+            result = Err(Fail::new(format!("{backend}:create-refused-on-expired-leftover"), format!("{backend} store: no create succeeded for an id whose previous record had expired")));
+            break;
+        }
+        if c.contended && ok_by[i].is_empty() {
+            result = Err(Fail::new(format!("{backend}:create-refused-on-expired-leftover"), format!("{backend} store: {n_creators} tasks tried to create an id whose previous record had expired, none succeeded")));
+            break;
+        }
+        if !c.sqlite && ok_by[i].len() > 1 {
+            // (the SQLite store may answer Ok without effect for a live id: pinned by an upstream test)
+            result = Err(Fail::new("memory:two-creates-succeeded-for-one-id", format!("memory store: create returned Ok to {} tasks for the same id: a live record was overwritten", ok_by[i].len())));
+            break;
+        }
+        match store.load(id).await {
+            Ok(Some(r)) => {
+                let by = r.state.get("by").and_then(|v| v.as_u64()).map(|t| t as usize);
+                if !by.is_some_and(|t| ok_by[i].contains(&t)) {
+                    result = Err(Fail::new(format!("{backend}:final-state"), format!("{backend} store: the record of an id holds {:?}, which is not the state of a task whose create succeeded ({:?})", r.state, ok_by[i])));
+                    break;
+                }
+            }
+            Ok(None) => {
+                result = Err(Fail::new(
+                    format!("{backend}:live-record-lost"),
+                    format!("{backend} store: create returned Ok (ttl 1h) for an id but the record is gone right afterwards ({} reaper task(s) were calling delete_expired({:?}) meanwhile)", n_reapers, c.batch),
+                ));
+                break;
+            }
+            Err(e) => {
+                result = Err(Fail::new(format!("{backend}:load"), format!("{e:?}")));
+                break;
+            }
+        }
+    }
+    drop(store);
+    if c.sqlite {
+        let _ = std::fs::remove_file(&db_path);
+        let _ = std::fs::remove_file(db_path.with_extension("db-wal"));
+        let _ = std::fs::remove_file(db_path.with_extension("db-shm"));
+    }
+    result?;
+    info.set_nontrivial(c.contended || n_reapers > 0);
+    info.lab(format!("leftovers:{}{}", if c.contended { "contended" } else { "partitioned" }, if n_reapers > 0 { "+reapers" } else { "" }));
+    Ok(info)
+}
+
+pub fn leftover_strategy(sqlite: bool) -> impl Strategy<Value = LeftoverCase> {
+    (
+        20u16..200,
+        prop_oneof![1 => Just(None), 2 => Just(Some(1u16)), 2 => Just(Some(7)), 2 => Just(Some(64))],
+        (if sqlite { 1u8 } else { 0u8 })..3,
+        2u8..5,
+        any::<bool>(),
+        prop::bool::weighted(0.3),
+    )
+        .prop_map(move |(n_ids, batch, reapers, creators, contended, big_old_state)| LeftoverCase { sqlite, n_ids, batch, reapers, creators, contended, big_old_state })
+}
+
 fn ids_of(op: &Op) -> Vec<u8> {
     match op {
         Op::Create { id, .. } | Op::Update { id, .. } | Op::UpdateTtl { id, .. } | Op::Load { id } | Op::Delete { id } => vec![*id % 2],
@@ -674,7 +848,7 @@ pub fn conc_strategy(sqlite: bool) -> impl Strategy<Value = ConcCase> {
 }
 
 pub fn main(mut chk: Check) -> ! {
-    chk.ev.rule = "sequential: 1-40 store operations (create/update/update_ttl/load/delete/change_id/delete_expired) over 3 ids, states = arbitrary JSON maps (any unicode, extreme numbers), ttl in {0 = expired at once, 1h, 10y}, on the in-memory and the SQLite store; every result is checked against a map-with-expiry model and every id is loaded at the end. concurrent: 2-4 tasks x 2-5 ops on 2 ids (long TTLs), multi-thread runtime, barrier start, random yields, each history repeated; oracle = some interleaving respecting program order explains all results and final loads (memoised DFS). non-trivial = an op touches an expired record or a change_id whose target exists (sequential), >=2 tasks write the same id (concurrent); distinct = distinct serialised case".into();
+    chk.ev.rule = "sequential: 1-40 store operations (create/update/update_ttl/load/delete/change_id/delete_expired) over 3 ids, states = arbitrary JSON maps (any unicode, extreme numbers), ttl in {0 = expired at once, 1h, 10y}, on the in-memory and the SQLite store; every result is checked against a map-with-expiry model and every id is loaded at the end. concurrent: 2-4 tasks x 2-5 ops on 2 ids (long TTLs), multi-thread runtime, barrier start, random yields, each history repeated; oracle = some interleaving respecting program order explains all results and final loads (memoised DFS). leftovers: 20-200 ids with an expired, unreaped record; 0-2 reaper tasks (delete_expired, batch none/1/7/64) and 2-4 creator tasks (contended or partitioned) start together; oracle = what every sequential order implies (some create succeeds per id, in-memory exactly one, the final record is the one of a successful creator, never gone). non-trivial = an op touches an expired record or a change_id whose target exists (sequential), >=2 tasks write the same id (concurrent); distinct = distinct serialised case".into();
     chk.ev.assume("create on a live id may answer DuplicateId or Ok-without-effect (the latter is pinned by an upstream SQLite test)");
     chk.ev.assume("change_id onto an id still physically occupied by an expired, unpurged record may be refused (not covered by the statement)");
     chk.ev.assume("floating point numbers are restricted to those that survive serde_json text encoding/decoding in the harness (serde_json is built without float_roundtrip; 1-ULP parse errors are a property of that library, not of the stores)");
@@ -687,7 +861,9 @@ pub fn main(mut chk: Check) -> ! {
         let ok = chk.replay_one::<SeqCase, _>("sequential-memory", &p, seq_oracle)
             || chk.replay_one::<SeqCase, _>("sequential-sqlite", &p, seq_oracle)
             || chk.replay_one::<ConcCase, _>("concurrent-memory", &p, |c| conc_oracle(c, 50))
-            || chk.replay_one::<ConcCase, _>("concurrent-sqlite", &p, |c| conc_oracle(c, 50));
+            || chk.replay_one::<ConcCase, _>("concurrent-sqlite", &p, |c| conc_oracle(c, 50))
+            || chk.replay_one::<LeftoverCase, _>("leftovers-memory", &p, leftover_oracle)
+            || chk.replay_one::<LeftoverCase, _>("leftovers-sqlite", &p, leftover_oracle);
         if !ok {
             eprintln!("replay file {} does not belong to C13", p.display());
             std::process::exit(2);
@@ -705,5 +881,7 @@ pub fn main(mut chk: Check) -> ! {
     chk.run("sequential-sqlite", t.pick(1_500, 40_000), seq_strategy(true), seq_oracle);
     chk.run("concurrent-memory", t.pick(400, 6_000), conc_strategy(false), |c| conc_oracle(c, reps));
     chk.run("concurrent-sqlite", t.pick(60, 1_500), conc_strategy(true), |c| conc_oracle(c, reps));
+    chk.run("leftovers-memory", t.pick(60, 1_500), leftover_strategy(false), leftover_oracle);
+    chk.run("leftovers-sqlite", t.pick(10, 120), leftover_strategy(true), leftover_oracle);
     chk.finish()
 }
